@@ -66,6 +66,30 @@ int pthread_mutex_lock(pthread_mutex_t *m) {
   }
   return real(m);
 }
+/* IR-built reference (shadow <bits/atomic_wait.h>): wait by polling, so that the wait-hook helper thread can end it; a wait nobody ends is a hang */
+#include <sched.h>
+void vf_atomic_wait(const void *addr, unsigned long long old, unsigned size) {
+  for (;;) {
+    unsigned long long cur = size == 1 ? *(volatile uint8_t*)addr : size == 2 ? *(volatile uint16_t*)addr : size == 4 ? *(volatile uint32_t*)addr : *(volatile uint64_t*)addr;
+    if (cur != old) return;
+    sched_yield();
+  }
+}
+void vf_atomic_notify(const void *addr, int all) { (void)addr; (void)all; }
+/* native counterpart of the atomic-window injection hook: the reference build of a TU that uses it is compiled from the same LLVM IR with a call
+   to vf_atomic_point() inserted in front of every atomic instruction (tools/e1.py instrument_atomics) */
+static rt_inject_fn *ainject_f; static int ainject_at, atomic_events;
+extern char __libc_single_threaded;   /* the program modelled has a second thread: libstdc++ must take its atomic paths, as it does in the encoding (the flag reads 0 there) */
+void vf_ainject_arm(rt_inject_fn *fn, int k) { __libc_single_threaded = 0; ainject_f = fn; ainject_at = k; atomic_events = 0; }
+int vf_ainject_pending(void) { return ainject_f != 0; }
+void vf_ainject_disarm(void) { ainject_f = 0; ainject_at = 0; }
+int vf_ainject_events(void) { return atomic_events; }
+void vf_atomic_point(void) {
+  if (ainject_f && !in_hook) {
+    atomic_events++;
+    if (atomic_events == ainject_at) { rt_inject_fn *f = ainject_f; ainject_f = 0; in_hook = 1; f(); in_hook = 0; }
+  }
+}
 void vf_protect(void *obj, unsigned long size, void *lock) { (void)obj; (void)size; (void)lock; }
 void vf_unprotect_all(void) { }
 #else
